@@ -39,7 +39,10 @@ class C02(WrapHarness):
         out.append(dict(base, gen='sym1x', n=4 if q else 5, ind='si', tokens=()))
         out.append(dict(base, gen='sym1x', n=4 if q else 5, ind='ii', tokens=(), bw=False))
         out.append(dict(base, gen='sym1x', n=3 if q else 4, ind='both', le='CRLF', tokens=TOK))
+        out += std_tmpl_spaces(dict(base, ind='none'), q, variants=False)
+        out += std_tmpl_spaces(dict(base, ind='both'), q, variants=False)
         if not q:
+            out += tmpl_spaces(dict(base, ind='si', bw=False), ['sentence', 'paras', 'hyphens', 'wide'])
             out.append(dict(base, gen='sym1x', n=4, ind='both', imax=2, tokens=()))
             out.append(dict(base, gen='symallx', n=4, ind='both', icl=(1, 3), bw=False))
         return out
